@@ -17,6 +17,10 @@ structure Cfg where
   /-- (domain reference, forward reference); "" = none -/
   rules : List (String × String)
   unknownKey : Bool
+  /-- the `reject` value of every rule, as written in the configuration -/
+  rejects : List Nat := []
+  /-- the configuration file holds more than one YAML document -/
+  multiDoc : Bool := false
   deriving Repr
 
 /-- `initUpstream` over the list, threading the tag table -/
@@ -60,6 +64,14 @@ def specAccepts (c : Cfg) : Bool :=
     && c.domainSets.all (· ≠ "") && decide c.domainSets.Nodup
     && c.rules.all (fun (d, f) => (d = "" || c.domainSets.contains d) && (f = "" || utags.contains f))
 
+/-- the whole start-up decision: the tag tables, plus `loadRule`'s range check of `reject` (the header's rcode field
+    has 4 bits) and the decoder's refusal of a second YAML document -/
+def acceptsFull (c : Cfg) : Bool := accepts c && c.rejects.all (· ≤ 15) && !c.multiDoc
+
+/-- … and what the property asks for: a reject rule answers with ITS rcode (so the value must be an rcode), and
+    nothing in the configuration is silently ignored -/
+def specFull (c : Cfg) : Bool := specAccepts c && c.rejects.all (· ≤ 15) && !c.multiDoc
+
 /-! line protocol: case `unk=<0|1> ups=<tag:0|1,…|-> dss=<tag,…|-> rules=<d/f;…|->` (empty string written `_`) ;
     out `ok` | `rejected` -/
 def unq (s : String) : String := if s == "_" then "" else s
@@ -78,20 +90,28 @@ def parseRule (t : String) : Option (String × String) :=
 def parseList {α} (s : String) (sep : String) (f : String → Option α) : Option (List α) :=
   if s == "-" then some [] else (s.splitOn sep).mapM f
 
+def parseReject (t : String) : Option Nat :=
+  match t.splitOn "/" with
+  | [_, _] => some 0
+  | [_, _, r] => natOfStr r
+  | _ => none
+
 def parseCfg (toks : List String) : Option Cfg := do
   let unk ← (kvGet toks "unk").bind boolOfStr
   let ups ← (kvGet toks "ups").bind (parseList · "," parseUp)
   let dss ← (kvGet toks "dss").bind (parseList · "," (fun t => some (unq t)))
   let rules ← (kvGet toks "rules").bind (parseList · ";" parseRule)
-  pure ⟨ups, dss, rules, unk⟩
+  let rejects ← (kvGet toks "rules").bind (parseList · ";" parseReject)
+  let multi := kvGet toks "docs" == some "2"
+  pure { upstreams := ups, domainSets := dss, rules := rules, unknownKey := unk, rejects := rejects, multiDoc := multi }
 
 def run (case impl : String) : String × String :=
   match parseCfg (words case) with
   | some c =>
-    let out := if accepts c then "ok" else "rejected"
+    let out := if acceptsFull c then "ok" else "rejected"
     let v := if impl == "panic" then "viol:panic"
-      else if impl == "ok" ∧ !specAccepts c then "viol:accepted-bad-config"
-      else if impl == "rejected" ∧ specAccepts c then "viol:rejected-good-config"
+      else if impl == "ok" ∧ !specFull c then "viol:accepted-bad-config"
+      else if impl == "rejected" ∧ specFull c then "viol:rejected-good-config"
       else "ok"
     (out, v)
   | none => ("bad-case", "na")
